@@ -68,6 +68,39 @@ def path_names(p):
 # --------------------------------------------------------------------------
 # template source
 
+def hint_attrs(t):
+    """the hint attributes written on the <py:match> element: the exact spellings in t['attrs']
+    when given, else the canonical ones for the booleans"""
+    if 'attrs' in t:
+        return dict(t['attrs'])
+    a = {}
+    if not t.get('buffer', True):
+        a['buffer'] = 'false'
+    if t.get('once', False):
+        a['once'] = 'true'
+    if not t.get('recursive', True):
+        a['recursive'] = 'false'
+    return a
+
+
+def hint_flags(attrs):
+    """what the documentation says the attributes mean: buffer/recursive default true, switched off
+    by "false"; once default false, switched on by "true" (case-insensitive) -> (buffer, once, recursive)"""
+    return (attrs.get('buffer', '').lower() != 'false', attrs.get('once', '').lower() == 'true',
+            attrs.get('recursive', '').lower() != 'false')
+
+
+def set_hints(t, buffer=None, once=None, recursive=None):
+    """switch hints of a template dict (drops exact spellings)"""
+    t.pop('attrs', None)
+    if buffer is not None:
+        t['buffer'] = buffer
+    if once is not None:
+        t['once'] = once
+    if recursive is not None:
+        t['recursive'] = recursive
+
+
 def esc(t):
     return t.replace('&', '&amp;').replace('<', '&lt;').replace('>', '&gt;')
 
@@ -101,13 +134,7 @@ def _items_src(items, frags):
         if isinstance(it, str):
             out.append(esc(it))
         elif isinstance(it, dict) and 'match' in it:
-            hints = ''
-            if not it.get('buffer', True):
-                hints += ' buffer="false"'
-            if it.get('once', False):
-                hints += ' once="true"'
-            if not it.get('recursive', True):
-                hints += ' recursive="false"'
+            hints = ''.join(' %s="%s"' % (k, esc(v)) for k, v in sorted(hint_attrs(it).items()))
             out.append('<py:match path="%s"%s>%s</py:match>' % (it['match'], hints, _body_src(it['body'])))
         elif isinstance(it, dict) and 'for' in it:
             out.append('<py:for each="_ in range(%d)">%s</py:for>' % (it['for'], _items_src(it['kids'], frags)))
@@ -180,8 +207,8 @@ def _flat_items(items, out):
         elif isinstance(it, dict) and 'match' in it:
             body = []
             _flat_body(it['body'], body)
-            out.append(['REG', it['match'], body, bool(it.get('buffer', True)), bool(it.get('once', False)),
-                        bool(it.get('recursive', True))])
+            a = hint_attrs(it)
+            out.append(['REG', it['match'], body, a.get('buffer'), a.get('once'), a.get('recursive')])
         elif isinstance(it, dict) and 'for' in it:
             for _ in range(it['for']):
                 _flat_items(it['kids'], out)
@@ -195,7 +222,7 @@ def _flat_items(items, out):
 
 def flat_items(case):
     """the stream `_match` receives from `_flatten`, as the generator knows it (independent of
-    genshi): ['S',name] ['E',name] ['T',text] and ['REG',path,body,buffer,once,recursive] at the
+    genshi): ['S',name] ['E',name] ['T',text] and ['REG',path,body,buffer,once,recursive] (attribute values or None) at the
     place where the py:match directive registers its template"""
     out = [['S', 'root']]
     _flat_items(case['kids'], out)
@@ -298,6 +325,23 @@ def rand_case(rng, ntmpl=None, hints=True, pos=False, late=0.15, kinds=('single'
                 t['once'] = True
             if rng.random() < 0.15:
                 t['recursive'] = False
+            if rng.random() < 0.3:
+                # exact spellings of the attributes, consistent with the booleans
+                a = {}
+                if not t['buffer']:
+                    a['buffer'] = rng.choice(['false', 'False', 'FALSE'])
+                elif rng.random() < 0.5:
+                    a['buffer'] = rng.choice(['true', 'no', ' false', '', '0'])
+                if t['once']:
+                    a['once'] = rng.choice(['true', 'True', 'TRUE'])
+                elif rng.random() < 0.5:
+                    a['once'] = rng.choice(['false', 'yes', 'true ', '', '1'])
+                if not t['recursive']:
+                    a['recursive'] = rng.choice(['false', 'False', 'FALSE'])
+                elif rng.random() < 0.5:
+                    a['recursive'] = rng.choice(['true', 'no', 'fals', '', '0'])
+                assert hint_flags(a) == (t['buffer'], t['once'], t['recursive'])
+                t['attrs'] = a
         tmpls.append(t)
     kids = rand_nodes(rng, depth, width)
     while not any(isinstance(k, list) for k in kids):
@@ -516,7 +560,7 @@ def wire_items(case):
                     wb.append([Atom('SEL')] + ([Atom(w[0])] if w else [Atom('named'), b[1]]))
                 else:
                     wb.append([Atom(b[0]), b[1]])
-            out.append([Atom('REG'), spec, wb, bool(buf), bool(once), bool(rec)])
+            out.append([Atom('REG'), spec, wb, buf, once, rec])
     return out
 
 
